@@ -3,7 +3,472 @@ From Coq Require Import ZArith NArith PArith List Bool Lia Arith.
 From Cohdl Require Import Models.Usage.
 Import ListNotations.
 
-(** the as-coded check accepts the always-block witness although [o] has two drivers *)
+(** ** the as-coded check is refuted by the always-block witness (and two neighbours) *)
+
 Lemma check_refuted :
   exists D root, check D = Accept /\ drivers D root = 2.
 Proof. exists witness, 1%positive. vm_compute. split; reflexivity. Qed.
+
+Lemma check_refuted_users :
+  exists D root, check D = Accept /\ users D root = 2.
+Proof. exists witness_var, 2%positive. vm_compute. split; reflexivity. Qed.
+
+Lemma check_refuted_input :
+  exists D, check D = Accept /\ no_input_writtenb D = false.
+Proof. exists witness_inst. vm_compute. split; reflexivity. Qed.
+
+(** the corrected discipline rejects all three *)
+Lemma check_fixed_rejects_witnesses :
+  check_fixed witness = Reject RMultiWrite /\ check_fixed witness_var = Reject RVarInConc
+  /\ check_fixed witness_inst = Reject RInputWritten.
+Proof. vm_compute. repeat split. Qed.
+
+(** ** small facts *)
+
+Definition has (r : positive) (w : omap) : bool :=
+  match find r w with Some _ => true | None => false end.
+
+Lemma find_cons r x o w : find r ((x, o) :: w) = if Pos.eqb r x then Some o else find r w.
+Proof. reflexivity. Qed.
+
+Lemma nodup_all_eq {A} (dec : forall a b : A, {a = b} + {a <> b}) (l : list A) :
+  (forall x y, In x l -> In y l -> x = y) -> length (nodup dec l) <= 1.
+Proof.
+  intros H. destruct l as [|a l]; [simpl; lia|].
+  assert (Hall : forall x, In x (a :: l) -> x = a) by (intros x Hx; apply H; [exact Hx | left; reflexivity]).
+  clear H. revert Hall. generalize (a :: l) as m. intros m. induction m as [|b m IH]; intros Hall; [simpl; lia|].
+  simpl. destruct (in_dec dec b m) as [Hin|Hnin].
+  - apply IH. intros x Hx. apply Hall. right; exact Hx.
+  - destruct m as [|c m]; [simpl; lia|].
+    exfalso. apply Hnin. left.
+    rewrite (Hall c) by (right; left; reflexivity). symmetry. apply Hall. left; reflexivity.
+Qed.
+
+(** ** one step of [check_usage] *)
+
+Lemma step_ok st o e st1 :
+  step st (o, e) = UOk st1 ->
+  (forall r o', find r st.(written_in) = Some o' -> find r st1.(written_in) = Some o') /\
+  (forall r o', find r st.(used_in) = Some o' -> find r st1.(used_in) = Some o') /\
+  (is_write e.(e_acc) = true -> is_input e.(e_kind) = false /\ find e.(e_root) st1.(written_in) = Some o) /\
+  (is_vt e.(e_kind) = true -> find e.(e_root) st1.(used_in) = Some o).
+Proof.
+  unfold step.
+  set (wres := if is_write (e_acc e) then _ else _).
+  assert (Hw : forall st', wres = UOk st' ->
+     used_in st' = used_in st /\
+     (forall r o', find r st.(written_in) = Some o' -> find r st'.(written_in) = Some o') /\
+     (is_write e.(e_acc) = true -> is_input e.(e_kind) = false /\ find e.(e_root) st'.(written_in) = Some o)).
+  { subst wres. intros st'. destruct (is_write (e_acc e)).
+    - destruct (is_input (e_kind e)); [discriminate|].
+      destruct (find (e_root e) (written_in st)) as [o'|] eqn:Hf.
+      + destruct (owner_eqb o' o) eqn:Ho; [|discriminate].
+        apply owner_eqb_ok in Ho. subst o'. intros H; inversion H; subst st'. auto.
+      + intros H; inversion H; subst st'; simpl. split; [reflexivity|]. split.
+        * intros r o' Hr. destruct (Pos.eqb r (e_root e)) eqn:E; [|exact Hr].
+          apply Pos.eqb_eq in E. subst r. congruence.
+        * intros _. split; [reflexivity|]. rewrite Pos.eqb_refl. reflexivity.
+    - intros H; inversion H; subst st'. split; [reflexivity|]. split; [auto|]. discriminate. }
+  destruct wres as [st'|r]; [|discriminate].
+  destruct (Hw st' eq_refl) as (Hu & Hmono & Hwr). clear Hw.
+  assert (Hw1 : is_write (e_acc e) = true -> is_input (e_kind e) = false) by (intros X; apply Hwr, X).
+  assert (Hw2 : is_write (e_acc e) = true -> find (e_root e) (written_in st') = Some o) by (intros X; apply Hwr, X).
+  destruct (is_vt (e_kind e)).
+  - destruct (find (e_root e) (used_in st')) as [o'|] eqn:Hf.
+    + destruct (owner_eqb o' o) eqn:Ho; [|discriminate].
+      apply owner_eqb_ok in Ho. subst o'. intros H; inversion H; subst st1.
+      split; [exact Hmono|]. split; [intros r o'; rewrite Hu; auto|]. split; [auto|]. intros _; exact Hf.
+    + intros H; inversion H; subst st1; simpl.
+      split; [exact Hmono|]. split; [|split; [auto|]].
+      * intros r o' Hr. rewrite <- Hu in Hr. destruct (Pos.eqb r (e_root e)) eqn:E; [|exact Hr].
+        apply Pos.eqb_eq in E. subst r. congruence.
+      * intros _. rewrite Pos.eqb_refl. reflexivity.
+  - intros H; inversion H; subst st1.
+    split; [exact Hmono|]. split; [intros r o'; rewrite Hu; auto|]. split; [auto|]. discriminate.
+Qed.
+
+Lemma run_ok l : forall st st',
+  run st l = UOk st' ->
+  (forall r o', find r st.(written_in) = Some o' -> find r st'.(written_in) = Some o') /\
+  (forall r o', find r st.(used_in) = Some o' -> find r st'.(used_in) = Some o') /\
+  (forall o e, In (o, e) l -> is_write e.(e_acc) = true ->
+      is_input e.(e_kind) = false /\ find e.(e_root) st'.(written_in) = Some o) /\
+  (forall o e, In (o, e) l -> is_vt e.(e_kind) = true -> find e.(e_root) st'.(used_in) = Some o).
+Proof.
+  induction l as [|[o e] l IH]; intros st st' H; cbn [run] in H.
+  - inversion H; subst st'. split; [auto|]. split; [auto|]. split; intros o e [].
+  - destruct (step st (o, e)) as [st1|] eqn:Hs; [|discriminate].
+    destruct (step_ok _ _ _ _ Hs) as (M1 & M2 & W & U).
+    destruct (IH _ _ H) as (N1 & N2 & W' & U').
+    split; [auto|]. split; [auto|]. split.
+    + intros o0 e0 [E|Hin] Hw; [inversion E; subst o0 e0|apply W'; assumption].
+      destruct (W Hw) as [A B]. split; [exact A | apply N1, B].
+    + intros o0 e0 [E|Hin] Hv; [inversion E; subst o0 e0; auto | apply U'; assumption].
+Qed.
+
+(** ** the instance loop *)
+
+Definition cnt (r : positive) (outs : list (positive * okind)) : nat :=
+  length (filter (fun rk => Pos.eqb (fst rk) r) outs).
+
+Lemma cnt_app r a b : cnt r (a ++ b) = cnt r a + cnt r b.
+Proof. unfold cnt. rewrite filter_app, app_length. reflexivity. Qed.
+
+Lemma inst_ports_ok m n outs : forall w w',
+  inst_ports m n outs w = inr w' ->
+  (forall r, has r w = true -> has r w' = true) /\
+  (forall r, 0 < cnt r outs -> has r w' = true) /\
+  (forall r, has r w = true -> cnt r outs = 0) /\
+  (forall r, cnt r outs <= 1) /\
+  (m = Fixed -> forall rk, In rk outs -> is_input (snd rk) = false).
+Proof.
+  induction outs as [|[root k] outs IH]; intros w w' H; simpl in H.
+  - inversion H; subst w'. unfold cnt; simpl.
+    split; [auto|]. split; [intros; lia|]. split; [auto|]. split; [auto|]. intros _ ? [].
+  - assert (Hk : (m = Fixed -> is_input k = false) /\
+                 match find root w with
+                 | Some _ => False
+                 | None => inst_ports m n outs ((root, OInst n) :: w) = inr w'
+                 end).
+    { destruct m; destruct (is_input k); try discriminate;
+        (split; [intros; (reflexivity || discriminate)|]);
+        destruct (find root w); (discriminate || exact H). }
+    clear H. destruct Hk as [Hk H]. destruct (find root w) eqn:Hf; [contradiction|].
+    destruct (IH _ _ H) as (A & B & C & D & E).
+    assert (Hnew : has root ((root, OInst n) :: w) = true)
+      by (unfold has; rewrite find_cons, Pos.eqb_refl; reflexivity).
+    assert (Hext : forall r, has r w = true -> has r ((root, OInst n) :: w) = true).
+    { intros r Hr. unfold has in *. rewrite find_cons. destruct (Pos.eqb r root); [reflexivity | exact Hr]. }
+    assert (Hc : forall r, cnt r ((root, k) :: outs) = (if Pos.eqb root r then 1 else 0) + cnt r outs).
+    { intros r. unfold cnt. simpl. destruct (Pos.eqb root r); reflexivity. }
+    repeat split.
+    + intros r Hr. apply A, Hext, Hr.
+    + intros r Hr. rewrite Hc in Hr. destruct (Pos.eqb root r) eqn:E0.
+      * apply Pos.eqb_eq in E0. subst r. apply A, Hnew.
+      * apply B. simpl in Hr. exact Hr.
+    + intros r Hr. rewrite Hc. destruct (Pos.eqb root r) eqn:E0.
+      * apply Pos.eqb_eq in E0. subst r. unfold has in Hr. rewrite Hf in Hr. discriminate.
+      * simpl. apply C, Hext, Hr.
+    + intros r. rewrite Hc. destruct (Pos.eqb root r) eqn:E0.
+      * apply Pos.eqb_eq in E0. subst r. rewrite (C root Hnew). lia.
+      * simpl. apply D.
+    + intros Hm rk [E0|Hin]; [subst rk; simpl; auto | apply E; assumption].
+Qed.
+
+Lemma inst_loop_ok m insts : forall n w,
+  inst_loop m n insts w = Accept ->
+  (forall r, has r w = true -> cnt r (concat insts) = 0) /\
+  (forall r, cnt r (concat insts) <= 1) /\
+  (m = Fixed -> forall rk, In rk (concat insts) -> is_input (snd rk) = false).
+Proof.
+  induction insts as [|outs insts IH]; intros n w H; simpl in H.
+  - unfold cnt; simpl. split; [auto|]. split; [auto|]. intros _ ? [].
+  - destruct (inst_ports m n outs w) as [e|w'] eqn:Hp; [discriminate|].
+    destruct (inst_ports_ok _ _ _ _ _ Hp) as (A & B & C & D & E).
+    destruct (IH _ _ H) as (A' & B' & C').
+    simpl. repeat split.
+    + intros r Hr. rewrite cnt_app, (C r Hr), (A' r (A r Hr)). reflexivity.
+    + intros r. rewrite cnt_app. destruct (Nat.eq_dec (cnt r outs) 0) as [Z|NZ].
+      * rewrite Z. apply B'.
+      * rewrite (A' r (B r ltac:(lia))). specialize (D r). lia.
+    + intros Hm rk Hin. apply in_app_or in Hin. destruct Hin; [apply E | apply C']; assumption.
+Qed.
+
+(** ** soundness of the corrected check *)
+
+Lemma check_with_accept m D :
+  check_with m D = Accept ->
+  exists st, run ustate0 (visits m 0 (all_contexts D)) = UOk st
+             /\ inst_loop m 0 (all_insts D) st.(written_in) = Accept
+             /\ locally_ok m D = true.
+Proof.
+  unfold check_with, locally_ok.
+  destruct (first_reason front_ctx (all_contexts D)); [discriminate|].
+  destruct (first_reason (ci_ctx m) (all_contexts D)); [discriminate|].
+  destruct (run ustate0 (visits m 0 (all_contexts D))) as [st|]; [|discriminate].
+  intros H. exists st. auto.
+Qed.
+
+Theorem check_fixed_sound D :
+  check_fixed D = Accept ->
+  forall root, drivers D root <= 1 /\ (is_var_or_temp D root -> users D root <= 1) /\ no_input_written D.
+Proof.
+  intros H root. apply check_with_accept in H. destruct H as (st & Hrun & Hinst & _).
+  fold (units D) in Hrun.
+  destruct (run_ok _ _ _ Hrun) as (_ & _ & W & U).
+  destruct (inst_loop_ok _ _ _ _ Hinst) as (A & B & C).
+  fold (inst_outs D) in A, B, C.
+  split; [|split].
+  - (* drivers *)
+    unfold drivers. fold (cnt root (inst_outs D)).
+    set (ow := map fst (filter (writes_root root) (units D))).
+    assert (Hall : forall o, In o ow -> find root st.(written_in) = Some o).
+    { intros o Ho. unfold ow in Ho. apply in_map_iff in Ho. destruct Ho as ([o' e] & Eo & Hin).
+      simpl in Eo. subst o'. apply filter_In in Hin. destruct Hin as [Hin Hw].
+      unfold writes_root in Hw. simpl in Hw. apply andb_prop in Hw. destruct Hw as [Hw Hr].
+      apply Pos.eqb_eq in Hr. subst root. apply (W _ _ Hin Hw). }
+    assert (Hn : length (nodup owner_eq_dec ow) <= 1).
+    { apply nodup_all_eq. intros x y Hx Hy. apply Hall in Hx. apply Hall in Hy. congruence. }
+    destruct ow as [|o ow'] eqn:Eow.
+    + simpl. apply B.
+    + assert (Hh : has root st.(written_in) = true).
+      { unfold has. rewrite (Hall o) by (left; reflexivity). reflexivity. }
+      rewrite (A root Hh). lia.
+  - (* users *)
+    intros _. unfold users. apply nodup_all_eq. intros x y Hx Hy.
+    assert (Hall : forall o, In o (map fst (filter (uses_root root) (units D))) -> find root st.(used_in) = Some o).
+    { intros o Ho. apply in_map_iff in Ho. destruct Ho as ([o' e] & Eo & Hin).
+      simpl in Eo. subst o'. apply filter_In in Hin. destruct Hin as [Hin Hw].
+      unfold uses_root in Hw. simpl in Hw. apply andb_prop in Hw. destruct Hw as [Hw Hr].
+      apply Pos.eqb_eq in Hr. subst root. apply (U _ _ Hin Hw). }
+    apply Hall in Hx. apply Hall in Hy. congruence.
+  - (* inputs *)
+    split.
+    + intros [o e] Hin Hw. simpl in *. apply (W _ _ Hin Hw).
+    + apply C. reflexivity.
+Qed.
+
+(** the converse reading: a conflicting design is rejected *)
+Theorem check_fixed_complete D root :
+  1 < drivers D root \/ 1 < users D root \/ no_input_writtenb D = false ->
+  check_fixed D <> Accept.
+Proof.
+  intros H Hacc. destruct (check_fixed_sound D Hacc root) as (Hd & Hu & (I1 & I2)).
+  destruct H as [H|[H|H]].
+  - lia.
+  - assert (Hv : is_var_or_temp D root).
+    { unfold users in H. destruct (filter (uses_root root) (units D)) as [|oe l] eqn:E; [simpl in H; lia|].
+      exists oe. assert (Hin : In oe (filter (uses_root root) (units D))) by (rewrite E; left; reflexivity).
+      apply filter_In in Hin. exact Hin. }
+    specialize (Hu Hv). lia.
+  - unfold no_input_writtenb in H. apply andb_false_iff in H. destruct H as [H|H].
+    + assert (Hall : forallb (fun oe => negb (is_write (e_acc (snd oe)) && is_input (e_kind (snd oe)))) (units D) = true).
+      { apply forallb_forall. intros oe Hin. destruct (is_write (e_acc (snd oe))) eqn:Hw; [|reflexivity].
+        rewrite (I1 oe Hin Hw). reflexivity. }
+      congruence.
+    + assert (Hall : forallb (fun rk => negb (is_input (snd rk))) (inst_outs D) = true).
+      { apply forallb_forall. intros rk Hin. rewrite (I2 rk Hin). reflexivity. }
+      congruence.
+Qed.
+
+(** the executable spec used by the harness is implied as well *)
+Corollary check_fixed_conflict_free D : check_fixed D = Accept -> conflict_freeb D = true.
+Proof.
+  intros H. unfold conflict_freeb. apply andb_true_intro. split.
+  - apply forallb_forall. intros r _. destruct (check_fixed_sound D H r) as (Hd & Hu & _).
+    apply andb_true_intro. split; apply Nat.leb_le; [exact Hd|].
+    destruct (filter (uses_root r) (units D)) as [|oe l] eqn:E.
+    + unfold users. rewrite E. simpl. lia.
+    + apply Hu. exists oe. assert (Hin : In oe (filter (uses_root r) (units D))) by (rewrite E; left; reflexivity).
+      apply filter_In in Hin. exact Hin.
+  - destruct (check_fixed_sound D H 1%positive) as (_ & _ & (I1 & I2)).
+    unfold no_input_writtenb. apply andb_true_intro. split; apply forallb_forall.
+    + intros oe Hin. destruct (is_write (e_acc (snd oe))) eqn:Hw; [|reflexivity]. rewrite (I1 oe Hin Hw). reflexivity.
+    + intros rk Hin. rewrite (I2 rk Hin). reflexivity.
+Qed.
+
+(** non-vacuity: an accepted design with writers, a variable, an always block and an instance *)
+Definition sample_ok : design :=
+  {| d_ctxs := [ {| c_kind := Sequential;
+                    c_always := Some [ {| e_root := 1; e_acc := AW; e_kind := KPortOut |} ];
+                    c_body := [ {| e_root := 2; e_acc := AW; e_kind := KSignal |};
+                                {| e_root := 3; e_acc := AW; e_kind := KVariable |};
+                                {| e_root := 3; e_acc := AR; e_kind := KVariable |};
+                                {| e_root := 2; e_acc := AP; e_kind := KSignal |} ] |};
+                 {| c_kind := Concurrent; c_always := None;
+                    c_body := [ {| e_root := 4; e_acc := AW; e_kind := KSignal |};
+                                {| e_root := 2; e_acc := AR; e_kind := KSignal |} ] |} ];
+     d_subs := [ BEntity [ (5%positive, KSignal) ]; BBlock [] [ BEntity [ (6%positive, KPortOut) ] ] ] |}.
+
+Example check_fixed_sound_nonvacuous :
+  check_fixed sample_ok = Accept /\ check sample_ok = Accept
+  /\ drivers sample_ok 2 = 1 /\ drivers sample_ok 6 = 1 /\ users sample_ok 3 = 1.
+Proof. vm_compute. repeat split. Qed.
+
+Example check_fixed_complete_nonvacuous :
+  1 < drivers witness 1 /\ 1 < users witness_var 2 /\ no_input_writtenb witness_inst = false.
+Proof. vm_compute. repeat split; lia. Qed.
+
+(** ** exactness of the corrected check (no over-rejection in the model) *)
+
+Lemma nodup_le1_eq {A} (dec : forall a b : A, {a = b} + {a <> b}) (l : list A) :
+  length (nodup dec l) <= 1 -> forall x y, In x l -> In y l -> x = y.
+Proof.
+  intros H x y Hx Hy.
+  apply (nodup_In dec) in Hx. apply (nodup_In dec) in Hy.
+  destruct (nodup dec l) as [|a [|b m]]; simpl in *; try lia; try tauto.
+  destruct Hx as [|[]], Hy as [|[]]. congruence.
+Qed.
+
+(** entries of the maps come from the events visited so far *)
+Definition inv (pre : list (owner * event)) (st : ustate) : Prop :=
+  (forall r o, find r st.(written_in) = Some o -> exists e, In (o, e) pre /\ writes_root r (o, e) = true) /\
+  (forall r o, find r st.(used_in) = Some o -> exists e, In (o, e) pre /\ uses_root r (o, e) = true).
+
+Lemma run_complete (all : list (owner * event)) :
+  (forall oe, In oe all -> is_write (snd oe).(e_acc) = true -> is_input (snd oe).(e_kind) = false) ->
+  (forall r o o' e e', In (o, e) all -> In (o', e') all ->
+       writes_root r (o, e) = true -> writes_root r (o', e') = true -> o = o') ->
+  (forall r o o' e e', In (o, e) all -> In (o', e') all ->
+       uses_root r (o, e) = true -> uses_root r (o', e') = true -> o = o') ->
+  forall suf pre st, all = pre ++ suf -> inv pre st ->
+  exists st', run st suf = UOk st' /\ inv all st'.
+Proof.
+  intros Hin Hw Hu. induction suf as [|[o e] suf IH]; intros pre st E I.
+  - rewrite app_nil_r in E. subst pre. exists st. split; [reflexivity | exact I].
+  - assert (Hmem : In (o, e) all) by (rewrite E; apply in_or_app; right; left; reflexivity).
+    assert (Hpre : forall x, In x pre -> In x all) by (intros x Hx; rewrite E; apply in_or_app; left; exact Hx).
+    destruct I as [I1 I2].
+    assert (S : exists st1, step st (o, e) = UOk st1 /\ inv (pre ++ [(o, e)]) st1).
+    { unfold step.
+      assert (W : exists stw,
+        (if is_write (e_acc e)
+         then if is_input (e_kind e) then UErr RInputWritten
+              else match find (e_root e) (written_in st) with
+                   | Some o' => if owner_eqb o' o then UOk st else UErr RMultiWrite
+                   | None => UOk {| written_in := (e_root e, o) :: written_in st; used_in := used_in st |}
+                   end
+         else UOk st) = UOk stw /\ used_in stw = used_in st /\
+        (forall r o0, find r stw.(written_in) = Some o0 ->
+           exists e0, In (o0, e0) (pre ++ [(o, e)]) /\ writes_root r (o0, e0) = true)).
+      { destruct (is_write (e_acc e)) eqn:Ew.
+        - pose proof (Hin (o, e) Hmem Ew) as Hni. simpl in Hni. rewrite Hni.
+          destruct (find (e_root e) (written_in st)) as [o'|] eqn:F.
+          + destruct (I1 _ _ F) as (e' & Hi & Hwr).
+            assert (o' = o).
+            { apply (Hw (e_root e) o' o e' e); auto. unfold writes_root; simpl. rewrite Ew, Pos.eqb_refl. reflexivity. }
+            subst o'. assert (X : owner_eqb o o = true) by (apply owner_eqb_ok; reflexivity). rewrite X.
+            exists st. split; [reflexivity|]. split; [reflexivity|].
+            intros r o0 Hf. destruct (I1 _ _ Hf) as (e0 & A & B). exists e0. split; [apply in_or_app; left; exact A | exact B].
+          + eexists. split; [reflexivity|]. split; [reflexivity|]. simpl.
+            intros r o0 Hf. destruct (Pos.eqb r (e_root e)) eqn:Er.
+            * inversion Hf; subst o0. apply Pos.eqb_eq in Er. subst r. exists e.
+              split; [apply in_or_app; right; left; reflexivity|].
+              unfold writes_root; simpl. rewrite Ew, Pos.eqb_refl. reflexivity.
+            * destruct (I1 _ _ Hf) as (e0 & A & B). exists e0. split; [apply in_or_app; left; exact A | exact B].
+        - exists st. split; [reflexivity|]. split; [reflexivity|].
+          intros r o0 Hf. destruct (I1 _ _ Hf) as (e0 & A & B). exists e0. split; [apply in_or_app; left; exact A | exact B]. }
+      destruct W as (stw & -> & Hus & Hws).
+      assert (I2' : forall r o0, find r stw.(used_in) = Some o0 ->
+                 exists e0, In (o0, e0) (pre ++ [(o, e)]) /\ uses_root r (o0, e0) = true).
+      { intros r o0 Hf. rewrite Hus in Hf. destruct (I2 _ _ Hf) as (e0 & A & B). exists e0. split; [apply in_or_app; left; exact A | exact B]. }
+      destruct (is_vt (e_kind e)) eqn:Ev.
+      - destruct (find (e_root e) (used_in stw)) as [o'|] eqn:F.
+        + rewrite Hus in F. destruct (I2 _ _ F) as (e' & Hi & Hur).
+          assert (o' = o).
+          { apply (Hu (e_root e) o' o e' e); auto. unfold uses_root; simpl. rewrite Ev, Pos.eqb_refl. reflexivity. }
+          subst o'. assert (X : owner_eqb o o = true) by (apply owner_eqb_ok; reflexivity). rewrite X.
+          exists stw. split; [reflexivity|]. split; assumption.
+        + eexists. split; [reflexivity|]. split; simpl; [exact Hws|].
+          intros r o0 Hf. destruct (Pos.eqb r (e_root e)) eqn:Er.
+          * inversion Hf; subst o0. apply Pos.eqb_eq in Er. subst r. exists e.
+            split; [apply in_or_app; right; left; reflexivity|].
+            unfold uses_root; simpl. rewrite Ev, Pos.eqb_refl. reflexivity.
+          * apply I2'. exact Hf.
+      - exists stw. split; [reflexivity|]. split; assumption. }
+    destruct S as (st1 & Hs & I').
+    destruct (IH (pre ++ [(o, e)]) st1) as (st' & Hr & If).
+    + rewrite <- app_assoc. exact E.
+    + exact I'.
+    + exists st'. split; [|exact If]. cbn [run]. rewrite Hs. exact Hr.
+Qed.
+
+Lemma inst_ports_complete m n outs : forall w,
+  (forall rk, In rk outs -> is_input (snd rk) = false) ->
+  (forall r, has r w = true -> cnt r outs = 0) ->
+  (forall r, cnt r outs <= 1) ->
+  exists w', inst_ports m n outs w = inr w' /\
+             (forall r, has r w' = true <-> has r w = true \/ 0 < cnt r outs).
+Proof.
+  induction outs as [|[root k] outs IH]; intros w Hi Hw Hc.
+  - exists w. split; [reflexivity|]. intros r. unfold cnt; simpl. split; [auto | intros [H|H]; [exact H | lia]].
+  - assert (Hk : is_input k = false) by (apply (Hi (root, k)); left; reflexivity).
+    assert (Hcs : forall r, cnt r ((root, k) :: outs) = (if Pos.eqb root r then 1 else 0) + cnt r outs).
+    { intros r. unfold cnt. simpl. destruct (Pos.eqb root r); reflexivity. }
+    assert (Hf : find root w = None).
+    { destruct (find root w) eqn:F; [|reflexivity]. exfalso.
+      assert (X : has root w = true) by (unfold has; rewrite F; reflexivity).
+      specialize (Hw root X). rewrite Hcs, Pos.eqb_refl in Hw. lia. }
+    destruct (IH ((root, OInst n) :: w)) as (w' & Hp & Hh).
+    + intros rk Hin. apply Hi. right. exact Hin.
+    + intros r Hr. unfold has in Hr. rewrite find_cons in Hr. destruct (Pos.eqb r root) eqn:E.
+      * apply Pos.eqb_eq in E. subst r. specialize (Hc root). rewrite Hcs, Pos.eqb_refl in Hc. lia.
+      * specialize (Hw r Hr). rewrite Hcs in Hw. lia.
+    + intros r. specialize (Hc r). rewrite Hcs in Hc. lia.
+    + exists w'. split.
+      * simpl. rewrite Hk, Hf. destruct m; exact Hp.
+      * intros r. rewrite Hh, Hcs. unfold has at 1. rewrite find_cons.
+        destruct (Pos.eqb r root) eqn:E.
+        -- apply Pos.eqb_eq in E. subst r. rewrite Pos.eqb_refl. split; intros _; [right; lia | left; reflexivity].
+        -- assert (E' : Pos.eqb root r = false) by (rewrite Pos.eqb_sym; exact E). rewrite E'. simpl.
+           fold (has r w). tauto.
+Qed.
+
+Lemma inst_loop_complete m insts : forall n w,
+  (forall rk, In rk (concat insts) -> is_input (snd rk) = false) ->
+  (forall r, has r w = true -> cnt r (concat insts) = 0) ->
+  (forall r, cnt r (concat insts) <= 1) ->
+  inst_loop m n insts w = Accept.
+Proof.
+  induction insts as [|outs insts IH]; intros n w Hi Hw Hc; [reflexivity|].
+  simpl in *.
+  destruct (inst_ports_complete m n outs w) as (w' & Hp & Hh).
+  - intros rk Hin. apply Hi. apply in_or_app. left. exact Hin.
+  - intros r Hr. specialize (Hw r Hr). rewrite cnt_app in Hw. lia.
+  - intros r. specialize (Hc r). rewrite cnt_app in Hc. lia.
+  - rewrite Hp. apply IH.
+    + intros rk Hin. apply Hi. apply in_or_app. right. exact Hin.
+    + intros r Hr. apply Hh in Hr. specialize (Hc r). rewrite cnt_app in Hc. destruct Hr as [Hr|Hr].
+      * specialize (Hw r Hr). rewrite cnt_app in Hw. lia.
+      * lia.
+    + intros r. specialize (Hc r). rewrite cnt_app in Hc. lia.
+Qed.
+
+(** no over-rejection in the corrected model: a conflict-free design that respects the
+    context-local rules of ConvertInstance is accepted *)
+Theorem check_fixed_exact D :
+  (forall root, drivers D root <= 1 /\ users D root <= 1) -> no_input_written D ->
+  locally_ok Fixed D = true -> check_fixed D = Accept.
+Proof.
+  intros Hdu [I1 I2] Hl. unfold check_fixed, check_with. unfold locally_ok in Hl.
+  destruct (first_reason front_ctx (all_contexts D)); [discriminate|].
+  destruct (first_reason (ci_ctx Fixed) (all_contexts D)); [discriminate|].
+  fold (units D).
+  assert (Hown : forall r o o' e e', In (o, e) (units D) -> In (o', e') (units D) ->
+            writes_root r (o, e) = true -> writes_root r (o', e') = true -> o = o').
+  { intros r o o' e e' H1 H2 W1 W2. destruct (Hdu r) as [Hd _]. unfold drivers in Hd.
+    apply (nodup_le1_eq owner_eq_dec (map fst (filter (writes_root r) (units D)))); [lia| |].
+    - apply in_map_iff. exists (o, e). split; [reflexivity | apply filter_In; auto].
+    - apply in_map_iff. exists (o', e'). split; [reflexivity | apply filter_In; auto]. }
+  assert (Huse : forall r o o' e e', In (o, e) (units D) -> In (o', e') (units D) ->
+            uses_root r (o, e) = true -> uses_root r (o', e') = true -> o = o').
+  { intros r o o' e e' H1 H2 W1 W2. destruct (Hdu r) as [_ Hd]. unfold users in Hd.
+    apply (nodup_le1_eq owner_eq_dec (map fst (filter (uses_root r) (units D)))); [lia| |].
+    - apply in_map_iff. exists (o, e). split; [reflexivity | apply filter_In; auto].
+    - apply in_map_iff. exists (o', e'). split; [reflexivity | apply filter_In; auto]. }
+  destruct (run_complete (units D) I1 Hown Huse (units D) [] ustate0 eq_refl) as (st & Hr & [Iw _]).
+  { split; intros r o H; discriminate H. }
+  rewrite Hr. apply inst_loop_complete.
+  - exact I2.
+  - intros r Hh. unfold has in Hh. destruct (find r (written_in st)) as [o|] eqn:F; [|discriminate].
+    destruct (Iw _ _ F) as (e & Hin & Hw). destruct (Hdu r) as [Hd _]. unfold drivers in Hd.
+    fold (inst_outs D). fold (cnt r (inst_outs D)) in Hd.
+    assert (Hne : 1 <= length (nodup owner_eq_dec (map fst (filter (writes_root r) (units D))))).
+    { assert (X : In o (nodup owner_eq_dec (map fst (filter (writes_root r) (units D))))).
+      { apply nodup_In. apply in_map_iff. exists (o, e). split; [reflexivity | apply filter_In; auto]. }
+      destruct (nodup owner_eq_dec (map fst (filter (writes_root r) (units D)))); [destruct X | simpl; lia]. }
+    lia.
+  - intros r. destruct (Hdu r) as [Hd _]. unfold drivers in Hd. fold (inst_outs D). fold (cnt r (inst_outs D)) in Hd. lia.
+Qed.
+
+Example check_fixed_exact_nonvacuous :
+  (forall root, drivers sample_ok root <= 1 /\ users sample_ok root <= 1) /\ locally_ok Fixed sample_ok = true.
+Proof.
+  split; [|reflexivity]. intros root.
+  assert (H := check_fixed_sound sample_ok eq_refl root). destruct H as (Hd & Hu & _).
+  split; [exact Hd|].
+  destruct (filter (uses_root root) (units sample_ok)) as [|oe l] eqn:E.
+  - unfold users. rewrite E. simpl. lia.
+  - apply Hu. exists oe. assert (Hin : In oe (filter (uses_root root) (units sample_ok))) by (rewrite E; left; reflexivity).
+    apply filter_In in Hin. exact Hin.
+Qed.
